@@ -1,3 +1,4 @@
 /- Aggregate: every C11 property theorem (RFC-grammar projection in C11.lean, all-inputs projection in C11Full.lean). -/
 import AJ.Props.C11
 import AJ.Props.C11Full
+import AJ.Props.C11Mp
